@@ -126,6 +126,20 @@ class Run:
                 return run.new_ctx(None)
         self._orig_context = cc.Context
         cc.Context = Factory
+        import aiohomekit.controller.coap.pairing as cp
+        self.cp = cp
+        self._orig_create_task = cp.async_create_task
+
+        def create_task(coro, *, name=None):
+            async def wrapped():
+                try:
+                    await coro
+                except BaseException as ex:  # noqa: BLE001
+                    run.log("bg", ok=False, err=f"{type(ex).__name__}: {ex}")
+                    raise
+                run.log("bg", ok=True, err="")
+            return run._orig_create_task(wrapped(), name=name)
+        cp.async_create_task = create_task
         controller = types.SimpleNamespace(_char_cache=CharacteristicCacheMemory(), pairings={}, aliases={})
 
         async def mk():
@@ -159,8 +173,14 @@ class Run:
         return ctx
 
     def on_shutdown(self, ctx):
+        from aiocoap.error import LibraryShutdown
         self.log("ctx_shut", x=ctx.x, again=ctx.shut)
         ctx.shut = True
+        # aiocoap: "this error is raised in all outstanding requests" (tokenmanager.shutdown)
+        for q in self.reqs:
+            if q.ctx is ctx and not q.fut.done():
+                q.logged_end = True
+                q.fut.set_exception(LibraryShutdown())
 
     def _caller_of_current_task(self):
         try:
@@ -224,6 +244,10 @@ class Run:
                     s.reg -= set(ids)
             self.log("req", x=ctx.x, r=req.r, c=c, kind="enc", addr=addr, e=e, n=n, op=op, ids=ids)
         fut.add_done_callback(lambda f, req=req: self._req_done(req))
+        if ctx.shut:
+            from aiocoap.error import LibraryShutdown
+            req.logged_end = True
+            fut.set_exception(LibraryShutdown())       # aiocoap: a request on a context that was shut down
         return types.SimpleNamespace(response=fut)
 
     def _req_done(self, req):
@@ -309,7 +333,7 @@ class Run:
     def cancellable(self, c):
         """Cancellation is a stimulus only where the specification has an opinion (see CoapConn.tla, Cancellable)."""
         task, api = self.callers[c]
-        if task.done():
+        if task.done() or api in ("close", "shutdown"):
             return False
         mine = [q for q in self.reqs if q.c == c and not q.logged_end and not q.fut.cancelled()]
         inflight = [q for q in mine if not q.fut.done()]
@@ -361,12 +385,9 @@ class Run:
                            protocol_version="1.1", type="_hap._udp.local.", address=a, addresses=[a], port=PORT)
 
         def f():
-            old = self.pairing.description
-            changed = old is None or old.address != a
-            self.log("descr", addr=addr, changed=changed)
+            self.log("descr", addr=addr)
             self.pairing._async_description_update(d)
-            if changed and not self.shutdown_called:
-                self.addr = addr
+        self.settle()
         self.loop.call_soon(f)
         self.step(1)
 
@@ -375,6 +396,7 @@ class Run:
         """Answer request r.  how: ok | err (pair-verify error TLV) | notfound | garbage | neterr."""
         from aiocoap.error import NetworkError
         from aiocoap.numbers.codes import Code
+        self.settle()                      # I/O is polled when no task is runnable
         q = self.reqs[r - 1]
         if q.fut.done():
             return False
@@ -452,7 +474,8 @@ class Run:
         return q.fut.done()
 
     def event(self, kind, iid=None):
-        """An accessory event.  kind: next | replay | wrongkey | oldsess | skip."""
+        """An accessory event PUT to the live context.  kind: next | replay | wrongkey | oldsess | skip."""
+        self.settle()
         live = [s for s in self.asess if not self.ctxs[s.x - 1].shut]
         cur = live[-1] if live else None
         if cur is None or not cur.reg:
@@ -461,45 +484,46 @@ class Run:
         iid = iid if iid is not None else sorted(cur.reg)[0]
         body = {10: b"\x01\x01\x01", 11: b"\x01\x04\x2a\x00\x00\x00", 12: b"\x01\x01\x01"}[iid]
         pt = struct.pack("<BHH", 0, iid, len(body)) + body
+        key, k = "cur", cur.evn
         if kind == "next":
-            ct = C.seal(cur.evk, _nonce(cur.evn), pt)
-            cur.events.append(ct)
+            ct = C.seal(cur.evk, _nonce(k), pt)
+            cur.events.append((k, ct))
             cur.evn += 1
         elif kind == "replay":
             if not cur.events:
                 return False
-            ct = cur.events[(len(cur.events) * 7 + iid) % len(cur.events)]
+            k, ct = cur.events[(len(cur.events) * 7 + iid) % len(cur.events)]
         elif kind == "wrongkey":
-            ct = C.seal(C.rand(32), _nonce(cur.evn), pt)
+            key = "wrong"
+            ct = C.seal(C.rand(32), _nonce(k), pt)
         elif kind == "oldsess":
             old = [s for s in self.asess if s is not cur]
             if not old:
                 return False
-            o = old[-1]
-            ct = C.seal(o.evk, _nonce(o.evn), pt)
+            key, k = "old", old[-1].evn
+            ct = C.seal(old[-1].evk, _nonce(k), pt)
         elif kind == "skip":
-            ct = C.seal(cur.evk, _nonce(cur.evn + 1), pt)       # an event was lost: the accessory is one ahead
+            k = cur.evn + 1                                     # an event was lost: the accessory is one ahead
+            ct = C.seal(cur.evk, _nonce(k), pt)
+            cur.events.append((k, ct))
             cur.evn += 2
-            cur.events += [None, ct]
-            cur.events = [x for x in cur.events if x is not None]
         else:
             raise AssertionError(kind)
         res = ctx.root._resources.get(()) if ctx.root is not None else None
         before = len(self.listener_calls)
-        code = "none"
         err = ""
         if res is None:
             code = "4.04"
         else:
             try:
                 out = self.loop.run_until_complete(res.render_put(types.SimpleNamespace(payload=ct)))
-                code = str(out.code.dotted) if hasattr(out.code, "dotted") else str(out.code)
+                code = out.code.dotted
             except Exception as ex:  # noqa: BLE001
                 code = "5.00"
                 err = f"{type(ex).__name__}: {ex}"
         calls = self.listener_calls[before:]
-        got = sorted(k[1] for ev in calls if isinstance(ev, dict) for k in ev)
-        self.log("event", e=cur.e, kind=kind, iid=iid, delivered=got, code=code, err=err)
+        got = sorted(kk[1] for ev in calls if isinstance(ev, dict) for kk in ev)
+        self.log("event", e=cur.e, kind=kind, key=key, k=k, iid=iid, delivered=got, code=code, err=err)
         return True
 
     # ------------------------------------------------------------------ observations
@@ -530,6 +554,7 @@ class Run:
 
     def close(self):
         self.cc.Context = self._orig_context
+        self.cp.async_create_task = self._orig_create_task
         vloop.close_loop(self.loop)
 
     def record(self, rid):
